@@ -161,11 +161,12 @@ pub fn regs_of(vm: &VM) -> [u16; 14] {
 impl Console for SimConsole {
     fn emit(&mut self, module: &'static str, line: u32, text: &str) {
         let origin = if module == "main_stub" { Origin::Main } else { origin_of(module) };
-        self.push(Event::Rec { origin, line, text: text.to_owned() });
         if self.sh.borrow().events.len() > 400_000 {
             // unbounded output without progress: stop the run, the oracle sees no proper end
+            // (before the record is logged, so that records and raw output stay in step)
             std::panic::resume_unwind(Box::new(SimSpin));
         }
+        self.push(Event::Rec { origin, line, text: text.to_owned() });
         if let Err(e) = self.wr.write_all(text.as_bytes()) {
             panic!("failed printing to stdout: {}", e);
         }
